@@ -57,7 +57,7 @@ ROUTES = [
     ('socks4-ok', 'ok.test', 1003, True), ('socks4-no', 'no.test', 1003, False), ('socks4-close', 'close.test', 1003, False), ('socks4-garbage', 'garbage.test', 1003, False),
     ('denied', 'ok.test', 1004, False), ('no-rule', 'ok.test', 1999, False),
     ('http-upstream-down', 'ok.test', 1005, False), ('socks5-upstream-down', 'ok.test', 1006, False),
-]
+] + [(f'http-no-wordy-{n}', f'wordy-{n}.test', 1001, False) for n in (1, 100, 200, 300, 350, 400, 450, 500, 1000, 2000, 4000, 8000, 16000, 40000)]
 CLIENTS = ['http', 'socks5', 'socks4']
 
 def echo_ok(s):
@@ -226,6 +226,6 @@ for o in (echo4, echo6, uph, ups):
 if evals < 50 or len(distinct) < 6:
     machinery(f'vacuous: evals={evals} distinct={len(distinct)}')
 cov = {'evaluations': evals, 'distinct_nontrivial': len(distinct), 'transitions': evals, 'traces_validated_against_impl': evals,
-       'rule': 'real binary: client protocol {http, socks5, socks4/4a} x 19 routes (direct v4/v6/refused; http, socks5, socks4 upstreams behaving ok / saying no / closing mid-handshake / sending garbage; denied; no rule; upstream port closed) + BIND, unknown command, UDP not allowed, 3 authentication failures; reply parsed strictly, echo round trip decides whether the tunnel really works',
+       'rule': 'real binary: client protocol {http, socks5, socks4/4a} x 33 routes (direct v4/v6/refused; an http upstream that refuses with 1..40000 bytes of explanation in its headers; http, socks5, socks4 upstreams behaving ok / saying no / closing mid-handshake / sending garbage; denied; no rule; upstream port closed) + BIND, unknown command, UDP not allowed, 3 authentication failures; reply parsed strictly, echo round trip decides whether the tunnel really works',
        'clients': CLIENTS, 'routes': len(ROUTES), 'schedule_control': 'kernel', 'samples': samples}
 sys.exit(chk.finish('model_checking', cov, ['E4 part: fake upstream proxies in Python decide their behaviour from the requested host name']))
